@@ -36,6 +36,7 @@ from ZODB._compat import PersistentUnpickler
 from ZODB._compat import ascii_bytes
 from ZODB.interfaces import BlobError
 from ZODB.POSException import POSKeyError
+from ZODB.POSException import Unsupported
 
 
 logger = logging.getLogger('ZODB.blob')
@@ -815,7 +816,14 @@ class BlobStorage(BlobStorageMixin):
                 latest = files[-1]  # depends on ever-increasing tids
                 files.remove(latest)
                 for f in files:
-                    remove_committed(os.path.join(oid_path, f))
+                    filepath = os.path.join(oid_path, f)
+                    # The storage may have kept non-current revisions
+                    # (those later than the pack time).
+                    serial = self.fshelper.splitBlobFilename(filepath)[1]
+                    try:
+                        self.loadSerial(oid, serial)
+                    except (POSKeyError, Unsupported):
+                        remove_committed(filepath)
             else:
                 remove_committed_dir(oid_path)
                 continue
